@@ -32,7 +32,7 @@ type c08Params struct {
 func (c08) ID() string    { return "C08" }
 func (c08) Level() string { return "exploration" }
 func (c08) Rule() string {
-	return "for every legal flow (client role: ECC, ECC with CertificateRequest, ECDHE, resumed; server role: ECC, ECC with client certificate under the policies require-and-verify / request / require-any, ECC with empty certificate, ECDHE, resumed) on both stacks: the unedited flow (control, must complete) and ALL single edits - omit, repeat, transpose adjacent, insert any kind of the alphabet (all handshake kinds, ChangeCipherSpec, warning alert, application data with and without payload) at any position - plus runs of 16 and 17 warning alerts; every sequence also with consecutive handshake messages packed into one record; thorough adds seeded double and triple edits. The scripted peer keeps transcript and keys consistent with what it sent. Oracle: the real endpoint completes iff a prefix of the received kinds (warning alerts within the tolerance removed) is exactly a legal flow. distinct = distinct (stack, role, flow, sequence); non-trivial = the edited part was delivered before the endpoint finished"
+	return "for every legal flow (client role: ECC, ECC with CertificateRequest, ECDHE, resumed; server role: ECC, ECC with client certificate under the policies require-and-verify / request / require-any, ECC with empty certificate, ECDHE, resumed) on both stacks: the unedited flow (control, must complete) and ALL single edits - omit, repeat, transpose adjacent, insert any kind of the alphabet (all handshake kinds, ChangeCipherSpec, warning alert, application data with and without payload, HelloRequest) at any position, ChangeCipherSpec left out while the keys are switched all the same, - plus runs of 16 and 17 warning alerts; every sequence also with consecutive handshake messages packed into one record; thorough adds seeded double and triple edits. The scripted peer keeps transcript and keys consistent with what it sent. Oracle: the real endpoint completes iff a prefix of the received kinds (warning alerts within the tolerance removed) is exactly a legal flow. distinct = distinct (stack, role, flow, sequence); non-trivial = the edited part was delivered before the endpoint finished"
 }
 func (c08) Components() (real, stub []string) {
 	return []string{"tlcp/dtlcp client and server state machines (instrumented)", "session cache (resumed flows)"},
@@ -57,7 +57,7 @@ var c08ServerFlows = map[string][]string{ // what a real SERVER receives
 	"ecdhe":           {"CH", "CERT", "CKE", "CV", "CCS", "FIN"},
 	"resumed":         {"CH", "CCS", "FIN"},
 }
-var c08Alphabet = []string{"CH", "SH", "CERT", "SKX", "CR", "SHD", "CKE", "CV", "FIN", "CCS", "ALERTW", "APP", "APP0"}
+var c08Alphabet = []string{"CH", "SH", "CERT", "SKX", "CR", "SHD", "CKE", "CV", "FIN", "CCS", "ALERTW", "APP", "APP0", "HREQ"}
 
 var (
 	c08Once  [2]sync.Once
@@ -82,6 +82,14 @@ func c08Edits(base []string) (out [][]string, names []string) {
 		for _, k := range c08Alphabet {
 			s := append(append(cp(base[:i]), k), base[i:]...)
 			out, names = append(out, s), append(names, fmt.Sprintf("insert %s@%d", k, i))
+		}
+	}
+	for i := range base {
+		if base[i] == "CCS" {
+			// ChangeCipherSpec left out, but the peer switches its keys all the same (what follows is protected)
+			s := cp(base)
+			s[i] = "CCS0"
+			out, names = append(out, s), append(names, fmt.Sprintf("silent CCS@%d", i))
 		}
 	}
 	for _, n := range []int{16, 17} {
